@@ -113,6 +113,7 @@ Proof.
     - unfold handle_stale_while_revalidate; apply WT_Spawn; [|constructor].
       unfold background_revalidate. apply Hrt. intros [|r] a b; [constructor|].
       constructor; intros own; destruct own; [|constructor].
+      destruct (_ && _); [constructor|].
       unfold get_refs_clean; constructor; intros ans.
       apply WritesTo_bind; [apply (hvr_writes {| rc_url_key := u; rc_start := a; rc_end := b; rc_cc_req := parse_cc (q_hdr q);
                  rc_stored := s; rc_fresh := calculate_freshness e (parse_cc (q_hdr q)) (parse_cc (e_hdr e)) now;
